@@ -34,7 +34,7 @@ MonNext ==
         /\ layers' = [i \in 1..Len(o.layers) |->
                         [name |-> o.layers[i].name, blob |-> o.layers[i].blob, bheld |-> TRUE, refs |-> 0, fin |-> FALSE,
                          closed |-> o.layers[i].closed, meta |-> o.layers[i].meta, fsd |-> o.layers[i].fsd,
-                         files |-> o.layers[i].files]]
+                         files |-> o.layers[i].files, cerr |-> FALSE]]
         \* bad is history: a check of this blob failed although layer and blob were open (so the probe failed), and
         \* no check has passed and no Refresh has succeeded since
         /\ blobs' = [i \in 1..Len(o.blobs) |->
